@@ -75,6 +75,7 @@ type Setup struct {
 	CreditUsers []int             `json:"credit_users"`
 	Sponsor     int               `json:"sponsor"` // dev account index sponsoring CreditTo, -1 none
 	SponsorSel  bool              `json:"sponsor_selected"`
+	SponsorEnergy string           `json:"sponsor_energy,omitempty"` // "" = untouched (rich); else the sponsor's whole VTHO (its VET is moved away: no growth)
 	PoS         bool              `json:"pos,omitempty"` // world built on a chain where HAYABUSA (block 2) is active and PoS has taken over (block 4)
 }
 
@@ -103,6 +104,8 @@ var (
 	AddrForwardStrict    = fixedAddr(8) // same, REVERT when the inner call fails
 	AddrStore2           = fixedAddr(9)
 	AddrPlain            = fixedAddr(10) // no code
+	AddrCallThenRevert   = fixedAddr(11) // CALL(calldata[0:32], callvalue, calldata[32:]) then REVERT: the callee's effects are rolled back
+	AddrSelfDestructCaller = fixedAddr(12) // CALLER SELFDESTRUCT
 )
 
 var Codes = map[thor.Address]string{
@@ -114,6 +117,8 @@ var Codes = map[thor.Address]string{
 	AddrStore:            "600054156" + "00d57600060005500" + "5b600160005500",
 	AddrStore2:           "600054156" + "00d57600060005500" + "5b600160005500",
 	AddrForward:          "366020900380602060003760006000916000346000355af100",
+	AddrCallThenRevert:   "366020900380602060003760006000916000346000355af1" + "60006000fd",
+	AddrSelfDestructCaller: "33ff",
 	AddrForwardStrict:    "366020900380602060003760006000916000346000355af1602057600060" + "00fd5b00",
 }
 
@@ -307,6 +312,14 @@ func (w *World) applyGenerated(st *state.State, t0 uint64) {
 		bal, _ := st.GetBalance(DevAddr(s.PoorOrigin))
 		st.SetBalance(DevAddr(9), new(big.Int).Add(func() *big.Int { b, _ := st.GetBalance(DevAddr(9)); return b }(), bal))
 		st.SetBalance(DevAddr(s.PoorOrigin), new(big.Int)) // no growth either
+	}
+	if s.Sponsor >= 0 && s.SponsorEnergy != "" {
+		sp := DevAddr(s.Sponsor)
+		bal, _ := st.GetBalance(sp)
+		b9, _ := st.GetBalance(DevAddr(9))
+		st.SetBalance(DevAddr(9), new(big.Int).Add(b9, bal))
+		st.SetBalance(sp, new(big.Int))
+		st.SetEnergy(sp, big10(s.SponsorEnergy), t0)
 	}
 	if s.CreditTo != "" {
 		bind := builtin.Prototype.Native(st).Bind(parseAddr(s.CreditTo))
@@ -1063,8 +1076,12 @@ func GenSetup(r *hx.Rand) Setup {
 		if r.Chance(1, 2) {
 			s.Sponsor = 4 + r.Intn(3)
 			s.SponsorSel = r.Chance(3, 4)
+			if r.Chance(1, 3) {
+				// a sponsor that cannot (always) afford the prepayment: the contract or the origin pays instead
+				s.SponsorEnergy = new(big.Int).Mul(big.NewInt(int64(r.Intn(400))), big.NewInt(1e16)).String()
+			}
 		}
-		if r.Chance(1, 2) {
+		if r.Chance(3, 4) {
 			s.Energies[s.CreditTo] = new(big.Int).Mul(big.NewInt(int64(1+r.Intn(5000))), e18).String()
 		}
 	}
@@ -1092,7 +1109,7 @@ func anyTarget(r *hx.Rand) thor.Address {
 	return cs[r.Intn(len(cs))]
 }
 
-func GenClause(r *hx.Rand, s *Setup, mild bool) ClauseSpec {
+func GenClause(r *hx.Rand, s *Setup, mild bool, origin int) ClauseSpec {
 	val := "0"
 	if r.Chance(1, 2) {
 		val = vet(r)
@@ -1127,8 +1144,21 @@ func GenClause(r *hx.Rand, s *Setup, mild bool) ClauseSpec {
 		return ClauseSpec{To: AddrHex(AddrForward), Value: "0", Data: Word(builtin.Energy.Address) + energyTransferData(anyTarget(r), amt)}
 	case 6: // self-destruct to a chosen beneficiary (sometimes itself, sometimes the block beneficiary)
 		b := anyTarget(r)
-		if r.Chance(1, 4) {
-			b = parseAddr(s.Benef)
+		switch r.Intn(8) {
+		case 0, 1:
+			b = parseAddr(s.Benef) // touched in this block (earlier rewards)
+		case 2, 3:
+			b = DevAddr(origin) // touched in this block when it pays its own gas
+		case 4:
+			b = thor.BytesToAddress(r.Bytes(20)) // brand-new, no VET
+		}
+		switch r.Intn(6) {
+		case 0: // the self-destruct happens inside a frame that reverts afterwards; the outer frame swallows the failure
+			return ClauseSpec{To: AddrHex(AddrForward), Value: val, Data: Word(AddrCallThenRevert) + Word(AddrSelfDestructTo) + Word(b)}
+		case 1: // ... or the clause itself fails
+			return ClauseSpec{To: AddrHex(AddrCallThenRevert), Value: val, Data: Word(AddrSelfDestructTo) + Word(b)}
+		case 2: // selfdestruct(msg.sender) called directly by the origin
+			return ClauseSpec{To: AddrHex(AddrSelfDestructCaller), Value: val}
 		}
 		if r.Chance(1, 5) {
 			b = AddrSelfDestructTo
@@ -1171,7 +1201,7 @@ func GenTx(r *hx.Rand, s *Setup, w *World) TxSpec {
 	}
 	mild := r.Chance(1, 2)
 	for i := 0; i < n; i++ {
-		c := GenClause(r, s, mild)
+		c := GenClause(r, s, mild, t.Origin)
 		if sameTo {
 			c.To = s.CreditTo
 			if r.Chance(1, 2) {
